@@ -51,7 +51,7 @@ def _mem(v):
 # result must not share memory with an operand - otherwise an in-place update of the result (term = x**k; term *= c) would
 # silently modify the operand.  (get, T, reshape, real, diag, ... hand out views on purpose and are not listed.)
 FRESH_RESULT = ('un', 'unp', 'bin', 'binc', 'pow', 'powreg', 'rpowc', 'neg', 'abs', 'minmax', 'dot', 'dotc', 'dotnd', 'outer', 'inv',
-                'solve', 'solvec', 'det', 'logdet', 'expm', 'sum', 'prod', 'trace', 'umax')
+                'solve', 'solvec', 'det', 'logdet', 'expm', 'sum', 'prod', 'trace', 'umax', 'conj', 'imag')
 
 
 def prop_operands(case, stats):
@@ -303,6 +303,79 @@ def alias_inplace_cases(draw, tier, op):
     return {'op': op, 'view': view, 'x': x}
 
 
+# ---------------------------------------------------------------------------
+# pullbacks called directly (UTPM.pb_<op> is public API, used by people who write their own reverse sweeps): with out=None
+# a pullback returns new adjoints and must leave the seed, the operands and the forward result byte-identical
+# ---------------------------------------------------------------------------
+
+# (arcsin ... tanh have no pullback at all; pb_symvec takes an extra UPLO argument and is reached through the tracer buckets)
+PB_UNARY = ['exp', 'expm1', 'log', 'log1p', 'sqrt', 'sin', 'cos', 'tan',
+            'reciprocal', 'square', 'negative', 'absolute', 'erf', 'erfi', 'dawsn', 'logit', 'expit', 'gammaln', 'psi', 'sum', 'trace',
+            'inv', 'det', 'logdet', 'transpose', 'real', 'imag', 'diag']
+PB_BINARY = ['add', 'sub', 'mul', 'truediv', 'dot', 'outer', 'solve']
+
+
+def prop_pb_direct(case, stats):
+    name = case['op']
+    pb = getattr(UTPM, 'pb_' + name, None)
+    fwd = {'add': operator.add, 'sub': operator.sub, 'mul': operator.mul, 'truediv': operator.truediv}.get(name) \
+        or getattr(UTPM, name, None) or getattr(algopy, name, None) or getattr(algopy.special, name, None)
+    if pb is None or fwd is None:
+        raise Inconclusive('no pb_%s / forward function' % name)
+    x = UTPM(case['x'].copy())
+    args = [x] + ([UTPM(case['y'].copy())] if case.get('y') is not None else [])
+    z = guard(fwd, *args)
+    if not isinstance(z, UTPM):
+        raise Inconclusive('forward result is not a UTPM')
+    zbar = UTPM(np.resize(case['zbar'], z.data.shape).astype(float) + 0.25)
+    objs = [('the seed', zbar)] + [('operand %d' % i, a) for i, a in enumerate(args)] + [('the forward result', z)]
+    snaps = [o.data.tobytes() for _, o in objs]
+    try:
+        guard(pb, zbar, *(args + [z]))
+    except Violation as v:
+        # pullbacks that insist on out= (NotImplementedError is already a declared rejection) or are not meant to be called this way
+        if str(v).startswith('raised '):
+            stats.event('pb-direct:raised:' + name)
+            raise Rejected(str(v)[:160])
+        raise
+    for (what, o), b in zip(objs, snaps):
+        if o.data.tobytes() != b:
+            raise Violation('UTPM.pb_%s(...) called directly (out=None) modified %s' % (name, what))
+
+
+@st.composite
+def pb_direct_cases(draw, tier, name):
+    D, P = draw(gen.dims(Dmax=4, Pmax=3))
+    safe = gen.nice_floats(0.3, 0.8)          # inside the domain of every function of the list
+    if name in ('inv', 'det', 'logdet', 'solve', 'dot', 'trace', 'transpose', 'symvec', 'diag'):
+        n = draw(st.integers(1, 3))
+        x = np.zeros((D, P, n, n))
+        for p in range(P):
+            m = draw(gen.well_conditioned(n))
+            if name == 'logdet' and np.linalg.det(m) < 0:
+                m[0] *= -1
+            x[0, p] = m
+        if D > 1:
+            x[1:] = draw(gen.float_array((D - 1, P, n, n), gen.coeff_elements(1.0)))
+        y = None
+        if name in ('solve', 'dot'):
+            k = draw(st.integers(1, 2))
+            y = draw(gen.utpm_data(D, P, (n, k), gen.nice_floats(-2, 2)))
+    elif name == 'outer':
+        x = draw(gen.utpm_data(D, P, (draw(st.integers(1, 3)),), safe))
+        y = draw(gen.utpm_data(D, P, (draw(st.integers(1, 3)),), safe))
+    else:
+        shape = draw(gen.shapes(max_rank=2, max_side=3))
+        x = draw(gen.utpm_data(D, P, shape, safe))
+        y = None
+        if name in PB_BINARY:
+            # same shape, or a lower-rank / size-1 operand on the right (the pullback then reduces over broadcast axes)
+            yshape = draw(st.sampled_from([shape, shape[1:], tuple(1 for _ in shape)]))
+            y = draw(gen.utpm_data(D, P, yshape, safe))
+    zbar = draw(gen.float_array((D, P, 3), gen.nice_floats(-1.0, 1.0), sparse=False))
+    return {'op': name, 'x': x, 'y': y, 'zbar': zbar, 'view': 'pb-direct'}
+
+
 def _nt_alias(case):
     return case['x'].shape[0] >= 2 and case['x'].ndim >= 3
 
@@ -324,6 +397,9 @@ def buckets(tier):
     bl.append(Bucket('operands:compose', (lambda: M.meta_cases(tier, max_len=8)), prop_operands,
                      {'quick': 40, 'thorough': 500}, nontrivial=_nt_prog, classes=M.base_classes,
                      shards={'quick': 4, 'thorough': 8}, weight=3.0))
+    for name in PB_UNARY + PB_BINARY:
+        bl.append(Bucket('pb-direct:' + name, (lambda name=name: pb_direct_cases(tier, name)), prop_pb_direct,
+                         {'quick': 25, 'thorough': 250}, nontrivial=_nt_alias, classes=_cl_alias))
     for fam in M.REV_SINGLE:
         bl.append(Bucket('tracer:' + fam, (lambda fam=fam: M.meta_cases(tier, first=fam, families=M.CHEAP_TAIL, max_len=3, reverse_mode=True)),
                          prop_tracer, {'quick': 20, 'thorough': 150}, nontrivial=_nt_prog, classes=M.base_classes, weight=2.0))
